@@ -540,6 +540,10 @@ def drv_workspace_sweep(ctx, tools, rng, prec, stats, flavor="hooks"):
         P = rng.choice([1, 2, 2, 3, 4])   # (P >= 3 was excluded until the WorkFree defect F17 was repaired, d0e97e1)
         call = rng.choice(["gssvx", "gssvx", "gstrf"])
         ba = rng.choice([0, 0, 4, 1, 3, 7])
+        if "asan" in flavor and ba % 4:
+            # a work[] that is not even int-aligned makes every int_t store undefined behaviour in C terms (UBSan stops the run at
+            # the first one, e.g. Glu->xsup[nsuper] = jcol); it works on this machine and is exercised in the plain flavours only
+            ba = 4 * (ba % 3)
         # first: the inputs of MemInit for this matrix
         o = parse_drv(run_cases(exe, drv_case("probe", call, 1, 0, mat, n, env=env), alarm=20))
         pr = o.get("probe", {}).get("probe")
